@@ -36,8 +36,16 @@
                                      [ComposedProcessors] and delegate; they add no behaviour.
     - [cancellable]                  when may the recv branch win while the composed [next] is in
                                      [NHand y]?  Only if [second.process(y)] has an await point
-                                     that returns Pending ([slowb]); otherwise start and end of the
-                                     hand-over happen inside one poll.
+                                     that returns Pending ([slowb]: a yield, or a tokio resource
+                                     subject to the cooperative budget, [bproc]); otherwise start
+                                     and end of the hand-over happen inside one poll: composed.rs
+                                     has NO await between [first.next()] returning the item and
+                                     the call of [second.process(item)].  How a processor's
+                                     [next()] waits (Notify, tokio mpsc [recv], semaphore
+                                     [acquire] — the latter two also return Pending when the
+                                     task's cooperative budget is exhausted) is not a parameter of
+                                     the model: in every case the future holds no item while it
+                                     is suspended ([NIdle]).
 
     Schedules are lists of labels; [run_trace] replays one.  Delays (process / next delays, arrival
     gaps, consumer pauses) are not counted: a delay is a label that is not taken yet, so "every
@@ -61,12 +69,18 @@ Inductive out :=
 | OP1 (x : N)      (* [process] of the first/only processor failed on input x *)
 | OP2 (x : N).     (* composed: [second.process] failed on the intermediate item x *)
 
-Record pcfg := mkP { tag : N; perrs : list N; nerrs : list N; grp : nat; pdel : list nat }.
+(** [bproc]: [process] goes through a tokio resource that takes part in cooperative scheduling
+    (a [tokio::sync] mutex / semaphore / channel operation).  Such an operation returns Pending
+    when the task's cooperative budget is used up, even if the resource is free, so a [process]
+    of this kind CAN suspend although it never waits for anybody. *)
+Record pcfg := mkP { tag : N; perrs : list N; nerrs : list N; grp : nat; pdel : list nat; bproc : bool }.
 
 Definition memN (x : N) (l : list N) : bool := existsb (N.eqb x) l.
 
-(** [second.process(y)] yields at least once before it takes effect. *)
+(** [second.process(y)] may return Pending before it takes effect: it yields at least once, or
+    it passes a budgeted tokio resource ([bproc]). *)
 Definition slowb (p : pcfg) (y : N) : bool :=
+  bproc p ||
   match pdel p with
   | [] => false
   | _ => negb (Nat.eqb (nth (N.to_nat (N.modulo y (N.of_nat (length (pdel p))))) (pdel p) 0) 0)
